@@ -183,6 +183,12 @@ class GaussianMerge(Compiler):
                     # Fix order of operations
                     unified_operations = self.organize_merge_ops([op] + merged_gaussian_ops)
                     gaussian_transform = GaussianUnitary().compile(unified_operations, registers)
+                    if not gaussian_transform:
+                        # the merged operations cancel each other: simply drop them
+                        self.curr_seq = [
+                            cmd for cmd in self.curr_seq if cmd not in unified_operations
+                        ]
+                        return True
                     self.new_DAG.add_node(gaussian_transform[0])
 
                     # Logic to add displacement gates. Returns a dictionary,
